@@ -47,16 +47,26 @@ EXTENDS Integers, Sequences, FiniteSets, TLC
 
 CONSTANTS
   Dev,
-  MaxOps,        \* bound on the number of application calls of a behaviour
-  Acts,          \* names of the calls applications make in this configuration
-  CloseBodies,   \* bodies applications write into Close frames
-  Payloads,      \* ping / pong payload lengths applications use (0..126)
-  DataKinds,     \* size classes of whole messages: "empty" | "small" | "big"
-  ReadModes,     \* "msg" | "part" | "json"
-  HandlerSets,   \* the [close, ping, pong] handler modes endpoints may be set up with
-  Limits,        \* read limits (0: none)
-  Zs,            \* subset of BOOLEAN: is permessage-deflate negotiated
+  Configs,       \* the configurations a behaviour may run in; each is a record
+                 \*   fam       a name (for the generators)
+                 \*   maxops    bound on the number of application calls of a behaviour
+                 \*   acts      names of the calls applications make
+                 \*   bodies    bodies applications write into Close frames
+                 \*   payloads  ping / pong payload lengths applications use (0..126)
+                 \*   kinds     size classes of whole messages: "empty" | "small" | "big"
+                 \*   modes     "msg" | "part" | "json"
+                 \*   handlers  the [close, ping, pong] handler modes endpoints may be set up with
+                 \*   limits    read limits (0: none)
+                 \*   zs        subset of BOOLEAN: is permessage-deflate negotiated
   NegSet         \* the negotiations a behaviour may start with
+
+VARIABLE cf      \* the configuration of this behaviour (chosen at the start, never changes)
+MaxOps      == cf.maxops
+Acts        == cf.acts
+CloseBodies == cf.bodies
+Payloads    == cf.payloads
+DataKinds   == cf.kinds
+ReadModes   == cf.modes
 
 E == {"c", "s"}
 Peer(e) == IF e = "c" THEN "s" ELSE "c"
@@ -226,7 +236,7 @@ VARIABLES
   sent,     \* e -> every frame e ever wrote (observer)
   ferr,     \* e -> the first error a read of e returned (observer)
   pp        \* e -> [pings, pongs]: payloads of the pings e's default handler answered, and of its answers (observer)
-vars == <<neg, z, hm, lim, wc, wl, rs, q, ow, rmid, td, n, last, sent, ferr, pp>>
+vars == <<cf, neg, z, hm, lim, wc, wl, rs, q, ow, rmid, td, n, last, sent, ferr, pp>>
 
 Open == [c |-> "open", code |-> 0, pre |-> <<>>, fill |-> 0]
 Err(c, code, pre, fill) == [c |-> c, code |-> code, pre |-> pre, fill |-> fill]
@@ -438,10 +448,11 @@ AppRead(e) ==
 \* --------------------------------------------------------------------- spec
 NoOw == [on |-> FALSE, t |-> 0, id |-> 0]
 Init ==
+  /\ cf \in Configs
   /\ neg \in NegSet
-  /\ z \in Zs
-  /\ hm \in [E -> HandlerSets]
-  /\ lim \in [E -> Limits]
+  /\ z \in cf.zs
+  /\ hm \in [E -> cf.handlers]
+  /\ lim \in [E -> cf.limits]
   /\ \A e \in E : lim[e] > 0 => ~z              \* a limit counts bytes of frames: not combined with compression
   /\ wc = [e \in E |-> TRUE]
   /\ wl = [e \in E |-> "open"] /\ rs = [e \in E |-> Open]
@@ -454,6 +465,7 @@ Init ==
 
 Live == SessionUp(neg) /\ neg.kind = "lib"        \* both endpoints exist
 Next == /\ Live
+        /\ cf' = cf
         /\ \E e \in E : \/ AppWriteData(e) \/ AppWriteJSON(e) \/ AppWritePrepared(e) \/ AppBegin(e) \/ AppEnd(e)
                         \/ AppWriteClose(e) \/ AppWriteCtl(e, "ping") \/ AppWriteCtl(e, "pong")
                         \/ AppSetCompress(e) \/ TransportClose(e) \/ AppRead(e)
@@ -509,6 +521,11 @@ EchoMirrors ==
       /\ f.body.k = "empty" \/ (f.body.k = "code" /\ ValidCloseCode(f.body.code))
       /\ rs[e].c = "close" => (IF rs[e].code = 1005 THEN f.body.k = "empty" ELSE f.body.k = "code" /\ f.body.code = rs[e].code)
       /\ rs[e].c \in {"close", "protocol", "limit"}
+\* at most one Close of an endpoint's own making, and none after the endpoint sent a Close itself
+EchoOnce ==
+  \A e \in E : LET own == SelectSeq(sent[e], LAMBDA f : f.k = "close" /\ f.auto) IN
+     /\ Len(own) <= 1
+     /\ own # <<>> => Len(Closes(sent[e])) = 1
 \* a Close that arrives at an endpoint with default handlers, nothing sent yet and the transport up is answered
 EchoHappens ==
   \A e \in E : (last.a = "read" /\ last.e = e /\ last.ret.c = "close" /\ hm[e].close = "default" /\ td = {}) =>
